@@ -178,6 +178,20 @@ class Gen:
         warg, flat, flags = self.wells_arg(geo, n_max=rng.choice([3, 8, 8, 24]))
         wells = [geo.real(w) for w in flat]
         cur = dict(view.volumes(li))
+        if direction == "rm" and intent == "ok" and not (isinstance(warg, list) and warg and isinstance(warg[0], list)):
+            # a removal (even of 0) from a well that sits below min_volume is refused by the library:
+            # steer successful removals away from such wells where possible
+            good = [w for w in flat if cur[geo.real(w)] >= lim]
+            if good and len(good) < len(flat):
+                flat = good
+                warg = list(flat) if not isinstance(warg, str) else flat[0]
+                wells = [geo.real(w) for w in flat]
+            elif not good:
+                alt = [w for w in geo.all_ids() if cur[geo.real(w)] >= lim]
+                if alt:
+                    flat = [rng.choice(alt) for _ in flat]
+                    warg = list(flat) if not isinstance(warg, str) else flat[0]
+                    wells = [geo.real(w) for w in flat]
         op = {"op": kind, "lab": li, "wells": warg, "label": rng.choice(LABELS), "intent": intent}
         op.update(flags)
         worklist_cap = kind in ("aspirate", "dispense")
@@ -324,7 +338,9 @@ class Gen:
         if len(set(vols)) == 1 and rng.random() < 0.5:
             op["volumes"] = enc(vols[0])
         else:
-            op["volumes"] = enc(self.shape_like(swarg if len(sflat) == len(vols) and not isinstance(swarg, str) else list(vols), vols))
+            from .geom import flatten_f
+            same = not isinstance(swarg, str) and len(flatten_f(swarg)) == len(vols)
+            op["volumes"] = enc(self.shape_like(swarg if same else list(vols), vols))
         if rng.random() < 0.3:
             op["kw"] = self.gen_kw()
         return op
@@ -342,6 +358,11 @@ class Gen:
             di = rng.choice([i for i in range(len(self.labs)) if i != si])
         gd = self.geos[di]
         col = rng.randrange(gs.cols)
+        if intent == "ok":
+            srcv = view.volumes(si)
+            okcols = [c for c in range(gs.cols) if srcv[(0, c)] >= gs.vmin]
+            if okcols:
+                col = rng.choice(okcols)
         if gd.trough:
             cols = rng.sample(range(gd.cols), rng.randint(1, gd.cols))
             dflat = [well_id(rng.randrange(gd.idrows), c) for c in cols]
